@@ -65,7 +65,7 @@ SInit == /\ sc = [n \in Nodes |-> [fifo |-> <<>>, dut |-> EmptyF]]
          /\ sfee = [n \in Nodes |-> EmptyF]
          /\ ss = [c \in SCalls |-> SIdle]
          /\ sord = {}
-         /\ sg = [oid |-> 0, comp |-> {}, last |-> EmptyF]
+         /\ sg = [oid |-> 0, comp |-> {}, vers |-> EmptyF]
 
 Range(f) == {f[x] : x \in DOMAIN f}
 Upd(c, r) == ss' = [ss EXCEPT ![c] = r]
@@ -185,25 +185,29 @@ SCompute(c, w) ==
         /\ sord' = IF DevOrder THEN sord ELSE sord \cup Learn(e, spe, A, R, w)
         /\ sg' = [sg EXCEPT !.oid = @ + 1,
                             !.comp = @ \cup {[e |-> e, spe |-> spe, A |-> A, R |-> R, w |-> ent.syn]},
-                            !.last = [x \in DOMAIN sg.last \cup {<<n, e>>} |-> IF x = <<n, e>> THEN ent.syn ELSE sg.last[x]]]
+                            !.vers = [x \in DOMAIN sg.vers \cup {<<n, e>>} |->
+                                        (IF x \in DOMAIN sg.vers THEN sg.vers[x] ELSE {}) \cup (IF x = <<n, e>> THEN {ent.syn} ELSE {})]]
   /\ UNCHANGED sfee
 
 \* SyntheticVIdx reads the synths map; as coded it reads the CACHE again (the entry may be gone)
-\* ghost: what the node last computed for the epoch says about the slot
-LastSyn(c) == LET k == <<ss[c].a.n, ss[c].e>> IN k \in DOMAIN sg.last /\ ss[c].a.slot \in DOMAIN sg.last[k]
+\* ghost: do the duties the node computed for the epoch (some version of them, if the beacon node's answers changed between
+\* two fetches) have / not have a synthetic duty in the slot
+VersOf(c) == LET k == <<ss[c].a.n, ss[c].e>> IN IF k \in DOMAIN sg.vers THEN sg.vers[k] ELSE {}
+SomeSyn(c) == \E w \in VersOf(c) : ss[c].a.slot \in DOMAIN w
+SomeNotSyn(c) == \E w \in VersOf(c) : ss[c].a.slot \notin DOMAIN w
 LookupEnt(c) == IF DevLookup THEN (IF Cached(ss[c].a.n, ss[c].e) THEN sc[ss[c].a.n].dut[ss[c].e] ELSE NoEnt) ELSE ss[c].ent
 IsSynSlot(c) == ss[c].a.slot \in DOMAIN LookupEnt(c).syn
 SLookupReq(c) ==
   /\ ss[c].pc = "lookup"
   /\ IF IsSynSlot(c) /\ SDefect # "nosynthroute"
        THEN /\ ss[c].a.slot - 1 > 0
-            /\ Upd(c, Issue(c, [ss[c] EXCEPT !.v = LookupEnt(c).syn[ss[c].a.slot], !.prev = ss[c].a.slot - 1, !.route = "synth", !.rok = LastSyn(c)],
+            /\ Upd(c, Issue(c, [ss[c] EXCEPT !.v = LookupEnt(c).syn[ss[c].a.slot], !.prev = ss[c].a.slot - 1, !.route = "synth", !.rok = SomeSyn(c)],
                             [NoReq EXCEPT !.k = "block", !.slot = ss[c].a.slot - 1]))
-       ELSE Upd(c, Issue(c, [ss[c] EXCEPT !.fwd = @ + 1, !.route = "fwd", !.rok = ~LastSyn(c)], [NoReq EXCEPT !.k = "prop", !.slot = ss[c].a.slot]))
+       ELSE Upd(c, Issue(c, [ss[c] EXCEPT !.fwd = @ + 1, !.route = "fwd", !.rok = SomeNotSyn(c)], [NoReq EXCEPT !.k = "prop", !.slot = ss[c].a.slot]))
   /\ UNCHANGED <<sc, sfee, sord, sg>>
 SLookupFail(c) ==
   /\ ss[c].pc = "lookup" /\ IsSynSlot(c) /\ ss[c].a.slot - 1 <= 0
-  /\ Upd(c, Fail([ss[c] EXCEPT !.route = "synth", !.rok = LastSyn(c)], "noblock"))
+  /\ Upd(c, Fail([ss[c] EXCEPT !.route = "synth", !.rok = SomeSyn(c)], "noblock"))
   /\ UNCHANGED <<sc, sfee, sord, sg>>
 \* no block in that slot: one slot further back
 SGotNoBlock(c) ==
